@@ -35,10 +35,18 @@ type caseDef struct {
 	Flags    url.Values
 	OutMode  string // inplace | separate | preexisting
 	Presign  bool   // the input was first signed by relic with key rsaB / SHA-256 / default flags
+	// PresignBig: the earlier signature is made with key rsaAbig instead (key rsaA behind a certificate
+	// file of ten certificates): it is larger than the signature that replaces it, and larger than the
+	// thresholds containers store small and large items differently at (4096 bytes in a compound file)
+	PresignBig bool
 }
 
 func (c caseDef) id(path string) string {
-	return fmt.Sprintf("%s|%s|presign=%v|%s|%s|%s|%s|%s", c.T.Name, c.Shape.Name, c.Presign, c.Key.Name, hname(c.Hash), flagString(c.Flags), c.OutMode, path)
+	ps := fmt.Sprint(c.Presign)
+	if c.PresignBig {
+		ps = "big"
+	}
+	return fmt.Sprintf("%s|%s|presign=%s|%s|%s|%s|%s|%s", c.T.Name, c.Shape.Name, ps, c.Key.Name, hname(c.Hash), flagString(c.Flags), c.OutMode, path)
 }
 
 func (c caseDef) replay(path string) map[string]any {
@@ -170,6 +178,9 @@ func (w *worker) input(c caseDef) ([]byte, error) {
 	if !c.Presign {
 		return b, nil
 	}
+	if c.PresignBig {
+		key += "|big"
+	}
 	if p, ok := w.presign[key]; ok {
 		if p == nil {
 			return nil, errPresignRefused
@@ -185,6 +196,9 @@ func (w *worker) input(c caseDef) ([]byte, error) {
 		return nil, err
 	}
 	pk := "rsaB"
+	if c.PresignBig {
+		pk = "rsaAbig"
+	}
 	req := relicx.SignReq{SigType: c.T.SigType, Key: pk, Hash: crypto.SHA256, Flags: w.baseFlags(c.T, url.Values{}), In: in}
 	if c.T.TwoStepApk {
 		// a complete earlier v1+v2 signature by the other key
@@ -501,6 +515,9 @@ func shapeClass(c caseDef) string {
 	s := c.Shape.Class
 	if c.Presign {
 		s += "+already-signed-by-relic"
+		if c.PresignBig {
+			s += "-with-a-ten-certificate-chain"
+		}
 	}
 	return s
 }
